@@ -83,6 +83,17 @@ Compute(n, seed, ep, sh, xs) ==
                     valid |-> c.size >= 1 /\ c.size <= Len(c.elig)]
         /\ UNCHANGED cfg
 
+(* Concurrent use.  ComputeConsensusGroup is called from several goroutines of a node at the same time          *)
+(* (consensus, header verification, interceptors).  The specification demands that the calls are ATOMIC          *)
+(* (linearizable): whatever the interleaving, a call behaves like Compute executed alone -- its result is a       *)
+(* function of (configuration, randomness, round, shard, epoch).  In the state machine a concurrent call is       *)
+(* therefore one more Compute step; it is a separate action only because the harness cannot attribute the hash   *)
+(* values consumed to an individual concurrent call: the values are those recorded for the same seed by an         *)
+(* earlier sequential call (H), and the call may or may not have been served from the cache.                      *)
+ComputeConc(n, seed, ep, sh, fromCache) ==
+    /\ <<n[1], seed>> \in DOMAIN H
+    /\ Compute(n, seed, ep, sh, IF fromCache THEN <<>> ELSE H[<<n[1], seed>>])
+
 (* C15 on every observed selection result *)
 Inv_C15_GroupSize     == (last.key # <<>> /\ last.err = "") => Len(last.group) = last.size
 Inv_C15_GroupDistinct == (last.key # <<>> /\ last.err = "") => NoDup(last.group)
